@@ -426,7 +426,7 @@ fn main() {
     let mut t = Trace::from_args();
     let seed = seed_from_env();
     let thorough = arg_str("--tier").as_deref() == Some("thorough");
-    let nseq = arg_u64("--seqs", if thorough { 700 } else { 70 });
+    let nseq = arg_u64("--seqs", if thorough { 700 } else { 160 });
     let len = arg_u64("--len", 45);
     let mut rng = Rng::new(seed);
     for fl in [Flavour::Seq, Flavour::Enum, Flavour::Cons] {
